@@ -423,12 +423,20 @@ def _build_cp_atom_payload(sequence, restrict, payload_form=False, interner=None
 
     lget = locked.get
 
+    # flags an earlier specific entry changed: what the global entry says about
+    # them no longer tells what a later specific entry starts from.
+    touched = set()
+    wiped = False
+
     for key, neg, pos in reversed(l):
-        if not any(map(is_wildcard, neg)):
+        if any(map(is_wildcard, neg)):
+            wiped = True
+        elif not wiped:
             # only grab the deltas; if a + becomes a specific -
-            neg = tuple(x for x in neg if lget(x, True))
-            pos = tuple(x for x in pos if not lget(x, False))
+            neg = tuple(x for x in neg if lget(x, True) or x in touched)
+            pos = tuple(x for x in pos if not lget(x, False) or x in touched)
         if neg or pos:
+            touched.update(neg, pos)
             new_l.append(f(key, neg, pos))
 
     return tuple(new_l)
